@@ -426,6 +426,8 @@ func Run(c *hx.Ctx) {
 	// partition values handed directly to WriteContents / ReadContents; own random stream (derived from the seed) so
 	// that the families above keep their inputs
 	partSpell(c, hx.NewRng(c.Seed*1000003+0x9a57))
+	// workspaces that do not fit the range given to iso9660 / squashfs Create (own stream as well)
+	overFamily(c, hx.NewRng(c.Seed*1000003+0x0e7))
 }
 
 func safely(f func() error) (err error) {
